@@ -102,6 +102,40 @@ claim("C11", "fault_enumeration",
       "found rebooted, and a second fault during the repair.",
       TRUST_STACK, "DESIGN.md 4 C11")
 
+claim("C02", "exploration",
+      "runtime monitor: set-valued reference classifier transcribed from docs/protocol*.md vs "
+      "the real handler's verdict over a request grid; APDU-log emptiness for refused requests",
+      "Sends a grid of tens of thousands of JSON requests (every field x ~30 deviation values, "
+      "structural variants, all pairs for sign, random multi-deviations, both modes) through the "
+      "real handler to a manager whose simulated device accepts everything and checks that the "
+      "verdict lies in the set the documents allow and that refused requests never touched the "
+      "device. Three late-validation cases are recorded known findings.",
+      TRUST_STACK + " The classifier is a reading of the documents; ambiguous inputs are only "
+      "required not to crash.", "DESIGN.md 4 C02")
+
+claim("C03", "exploration",
+      "hostile-input workload (raw bytes, JSON-grammar, structure-aware conversions, shuffled "
+      "sequences, live sockets) with a one-line/int-errorcode/no-exception oracle and a "
+      "sys.monitoring step budget",
+      "Feeds tens of thousands of hostile request lines per run through the real handler over "
+      "one manager lifetime with production-like logging, plus a live TCPServer with a probe "
+      "after every line; any exception leaving the handler, any reply that is not exactly one "
+      "JSON object line with an int errorcode, or a step-budget overrun is a violation, keyed "
+      "by exception type and innermost repository frame.",
+      TRUST_STACK + " Device keeps to its protocol. Lines up to 1 MiB (quick) / 16 MiB.",
+      "DESIGN.md 4 C03")
+
+claim("C12", "exploration",
+      "history checker over client call/return, handle_request begin/end and APDU events from a "
+      "live multi-client run with injected device delays; in-flight counter under the bus lock",
+      "Real sockets, real TCPServer thread, 2..16 client threads and random 0..2 ms delays inside "
+      "every device exchange; the recorded history must show non-overlapping request intervals "
+      "with contiguous APDU blocks, an in-flight counter of at most 1, and replies carrying the "
+      "per-exchange random data of their own request only. Evidence reports the pending-overlap "
+      "pairs and distinct service orders actually observed.",
+      TRUST_STACK + " Schedules are whatever the OS produces under the injected delays.",
+      "DESIGN.md 4 C12")
+
 
 def main():
     props = [json.loads(l) for l in open(os.path.join(HERE, "properties.jsonl"))]
